@@ -344,6 +344,7 @@ func runC07(c *Ctx) {
 	c07OverrideKeys(c, pk, pa, nodeIface, termIface)
 	c07WriterCoverage(c, pk, nodeIface)
 	c07Comparators(c, pk)
+	c07PreSortRead(c, pk)
 
 	// ---- (5) STABLE-SORT
 	for _, fr := range p.FuncsOf(pk) {
